@@ -281,15 +281,15 @@ def attach_all(run, rt, which=("merge", "flatten", "subtract", "intersection", "
         kw.setdefault("name", f"GenomicArray.{w}")
         rt.attach(GA, w, **kw)
     traced += [
-        ("merge._nonoverlapping_groups", skgenome.merge._nonoverlapping_groups),
-        ("merge.merge", skgenome.merge.merge),
-        ("merge.flatten", skgenome.merge.flatten),
-        ("merge._flatten_tuples", skgenome.merge._flatten_tuples),
-        ("merge._squash_tuples", skgenome.merge._squash_tuples),
-        ("subtract._subtraction", skgenome.subtract._subtraction),
-        ("subdivide._split_targets", skgenome.subdivide._split_targets),
-        ("intersect.iter_ranges", skgenome.intersect.iter_ranges),
-        ("gary.resize_ranges", GA.resize_ranges),
-        ("gary.intersection", GA.intersection),
+        ("merge._nonoverlapping_groups", rt.opt(skgenome.merge, "_nonoverlapping_groups")),
+        ("merge.merge", rt.opt(skgenome.merge, "merge")),
+        ("merge.flatten", rt.opt(skgenome.merge, "flatten")),
+        ("merge._flatten_tuples", rt.opt(skgenome.merge, "_flatten_tuples")),
+        ("merge._squash_tuples", rt.opt(skgenome.merge, "_squash_tuples")),
+        ("subtract._subtraction", rt.opt(skgenome.subtract, "_subtraction")),
+        ("subdivide._split_targets", rt.opt(skgenome.subdivide, "_split_targets")),
+        ("intersect.iter_ranges", rt.opt(skgenome.intersect, "iter_ranges")),
+        ("gary.resize_ranges", rt.opt(GA, "resize_ranges")),
+        ("gary.intersection", rt.opt(GA, "intersection")),
     ]
     return traced
